@@ -90,7 +90,8 @@ ATTR = [
     (r"^verdict-.*-claims-success-spec-", ["C04", "C10", "C02"]),
     (r"^verdict-.*(-claims-timeout-spec-|-spec-timeout$)", ["C04", "C10", "C08"]),
     (r"^verdict-", ["C04", "C10"]),
-    (r"^diagnosis$", ["C04"]),
+    (r"^diagnosis-.*timeout", ["C04", "C08"]),
+    (r"^diagnosis", ["C04"]),
     (r"^run-end-early$", ["C02", "C04", "C09"]),
     (r"^run-(end|exc)-", ["C04", "C10"]),
     (r"^cancelled-run-ends-early$", ["C11"]),
